@@ -194,6 +194,16 @@ def fam_manager(rng, pid, count, fills=(False,), has=(False,), lifes=(None,), he
             cfg.lifespan, cfg.ctype = lifespan, ctype
             sc = ind_scenario(rng, f"{pid}/mgr{tag}/{tf}/{t}", "manager", cfg, n, rng.choice(["mixed", "walk"]),
                               twins=twins, tf=tf, regular=regular, pre_choices=(0, 1, 2, n))
+        if sc["obj"] == "ind" and rng.random() < 0.25:
+            # the candle manager used directly, its timeframe given as string (any case) or enum
+            sc["obj"] = "mgr"
+            sc["mgr"] = {"tf": tf, "tf_form": rng.choice(["upper", "lower", "enum", "enum"]), "fill": fill,
+                         "life": lifespan, "ha": ha}
+            sc["inds"] = []
+            sc["twins"] = []
+            sc["id"] = sc["id"].replace("/mgr", "/bare")
+            if sc["prog"] and sc["prog"][-1][0] == "calculate":
+                sc["prog"] = sc["prog"][:-1]
         if collapse_ops and tf and rng.random() < 0.5:
             prog = []
             for st in sc["prog"]:
@@ -246,7 +256,8 @@ def fam_disorder(rng, pid, count):
     out = []
     for sc in fam_manager(rng, pid, count, collapse_ops=False, hexshare=0.0, tag="d"):
         st = list(sc["stream"])
-        if len(st) < 6 or not sc["inds"][0].timeframe:
+        has_tf = sc["mgr"].get("tf") if sc["obj"] == "mgr" else sc["inds"][0].timeframe
+        if len(st) < 6 or not has_tf:
             continue
         i = rng.randrange(3, len(st))
         back = rng.choice([1, 2, 30, 600, 7200, 100000])
@@ -612,6 +623,7 @@ def read_batch(rng, sc, names, kinds, lens_hint, hexobj, touches=True):
             rd.append(("ind.reading_count", i, full, NOIDX))
             if hexobj:
                 rd.append(("hex.reading", -1, full, rng.choice([NOIDX, idx])))
+                rd.append(("hex.reading", -1, full, rng.randint(-14, 13)))   # any index: out of range reads None
                 rd.append(("hex.prev_reading", -1, full, NOIDX))
                 rd.append(("hex.reading_as_list", -1, full, NOIDX))
                 rd.append(("hex.has_reading", -1, full, NOIDX))
@@ -648,6 +660,15 @@ def fam_reads(rng, pid, count, forms=("candle",), touches=True):
             # labels the user chooses may contain a dot; the stored name must stay one key
             lab = rng.choice([{"name_suffix": "v1.5"}, {"fullname_override": "my.fast"}, {"name_suffix": "a.b"}])
             cfgs[0].extra = dict(cfgs[0].extra, **lab)
+        hexcfg = {}
+        if hexobj and rng.random() < 0.4:
+            # a Hexital with its own (coarse) timeframe: members on the same one and on finer ones
+            own = rng.choice(["T5", "T15", "S30"])
+            finer = {"T5": "T1", "T15": "T5", "S30": "S10"}[own]
+            hexcfg = {"timeframe": own}
+            tf = finer
+            for j, c in enumerate(cfgs):
+                c.timeframe = rng.choice([own, finer, None]) if j else rng.choice([own, finer])
         cfgs = _uniq(cfgs)
         names = [c.build(standalone=not hexobj).name for c in cfgs]
         kinds = [c.kind for c in cfgs]
@@ -658,7 +679,7 @@ def fam_reads(rng, pid, count, forms=("candle",), touches=True):
         pre, chunks = compositions(rng, n, (0, 1, 3), 3)
         sc = {"id": f"{pid}/{'hex' if hexobj else 'ind'}/{'+'.join(kinds)}/{form}/{t}", "fam": "reads",
               "names_fixed": True,
-              "obj": "hex" if hexobj else "ind", "inds": cfgs, "hex": {}, "stream": st, "form": form,
+              "obj": "hex" if hexobj else "ind", "inds": cfgs, "hex": hexcfg, "stream": st, "form": form,
               "twins": [], "member_forms": ["obj"] * len(cfgs), "single_unwrapped": rng.random() < 0.5,
               "clause_props": {"exc": [pid], "stage": ["C19"], "def": ["C19"], "sideeffect": ["C19"],
                                "attrs": ["C19"], "args": ["C19"], "read": ["C20"]}}
